@@ -59,6 +59,10 @@ where
     let on_unsubscribe = Arc::clone(&self.on_unsubscribe);
 
     Observable::create(move |s| {
+      if !s.is_subscribed() {
+        // already cancelled (e.g. a sibling input of merge failed first): do not register it
+        return;
+      }
       let serial = {
         let mut serial = serial.write().unwrap();
         *serial += 1;
